@@ -5,12 +5,16 @@ import YaegiVerif.Model.ConstDecl
 import YaegiVerif.Spec.GoConst
 import YaegiVerif.Model.ConstClass
 import YaegiVerif.Generated.C03
+import YaegiVerif.Expected.C03
 /- Line-protocol front end for C03 (glue, not a proof obligation).
    repr KIND INT            → y=<true|false> g=<true|false> gap=<0|1> fix=<true|false>
    decl CTX TYPE EXPR       → y=<outcome> g=<outcome> cls=<class>      CTX ∈ var const varT constT, TYPE = - or a basic type
    block (SPEC…)            → same; SPEC = (spec TYPE EXPR) | (spec -)  (implicit repetition)
    EXPR = (int N) (rune N) (flt NUM DEN) (bool 0|1) (str HEX) (iota) (un ACT X) (bin ACT X Y) (conv TYPE X) (par X) (len X)
    outcome = ok:<v>:<type>[,<v>:<type>…] | reject | crash | ?   with v = i<int> | f<num>/<den> | b<bool> | s<hex>
+   y=  model run with the facts regenerated from the current source (follows a mutated source);
+   yx= model of the unchanged interpreter (hand-written expected facts); cls= is computed from yx and g only, so a
+   class is a property of the input and of the unchanged code, never of what the current source does.
 -/
 namespace YaegiVerif.Driver.C03
 open YaegiVerif YaegiVerif.Const
@@ -79,19 +83,20 @@ def outGo (rs : List (Res (CV × BT))) : Out :=
   else .ok (rs.filterMap fun r => match r with | .ok v => some v | _ => none)
 
 def facts : Facts := { repr := Generated.C03.reprFacts, eval := Generated.C03.evalFacts }
+def factsX : Facts := Expected.C03.facts
 
-def answer (y : Out) (g : List (Res (CV × BT))) (cls : String) : String :=
-  s!"y={showOut y} g={showOut (outGo g)} cls={cls}"
+def answer (y yx : Out) (g : List (Res (CV × BT))) (cls : String) : String :=
+  s!"y={showOut y} yx={showOut yx} g={showOut (outGo g)} cls={cls}"
 
 /-- class of a block: the class of the first spec that has one; the block as a whole otherwise -/
 def classifyBlock (specs : List Spec) (y : Out) (g : List (Res (CV × BT))) : String :=
-  let stages := blockWalkY facts Generated.C03.declFacts { iota := 0, first := true, prev := none } specs
+  let stages := blockWalkY factsX Expected.C03.declFacts { iota := 0, first := true, prev := none } specs
   let resolved := Spec.resolveGo none specs
   let rec go (i : Nat) (st : List Stage) (rs : List (Option (Option BT × CExpr)))
       (gs : List (Res (CV × BT))) : String :=
     match st, rs, gs with
     | s :: st', some (t, e) :: rs', g1 :: gs' =>
-      let c := Class.classifyDecl facts .const i t e (combineY [s]) g1
+      let c := Class.classifyDecl factsX .const i t e (combineY [s]) g1
       if c != "-" then c else go (i + 1) st' rs' gs'
     | _ :: st', none :: rs', _ :: gs' => go (i + 1) st' rs' gs'
     | _, _, _ => "block-interplay"
@@ -123,7 +128,7 @@ def handle (args : List Sexp) : String :=
   | [.atom "repr", .atom kind, v] =>
     (match IKind.ofName? kind, v.int? with
      | some k, some v =>
-       s!"y={reprY Generated.C03.reprFacts k v} g={Spec.reprGo k v} gap={if inSignedGap k v then 1 else 0} fix={reprFixed Generated.C03.reprFacts k v}"
+       s!"y={reprY Generated.C03.reprFacts k v} yx={reprY Expected.C03.reprFacts k v} g={Spec.reprGo k v} gap={if inSignedGap k v then 1 else 0} fix={reprFixed Generated.C03.reprFacts k v}"
      | _, _ => "bad-op")
   | [.atom "decl", .atom ctx, t, e] =>
     (match parseType t, parseExpr e with
@@ -131,14 +136,16 @@ def handle (args : List Sexp) : String :=
        let g := Spec.declGo 0 t e
        let isVar := ctx == "var" || ctx == "varT"
        let y := if isVar then outOfRes (varDeclY facts t e) else constDeclY facts t e
-       answer y [g] (Class.classifyDecl facts (if isVar then .var else .const) 0 t e y g)
+       let yx := if isVar then outOfRes (varDeclY factsX t e) else constDeclY factsX t e
+       answer y yx [g] (Class.classifyDecl factsX (if isVar then .var else .const) 0 t e yx g)
      | _, _ => "bad-op")
   | [.atom "block", .list specs] =>
     (match specs.mapM parseSpec with
      | some ss =>
        let y := blockY facts Generated.C03.declFacts ss
+       let yx := blockY factsX Expected.C03.declFacts ss
        let g := Spec.blockGo ss
-       answer y g (classifyBlock ss y g)
+       answer y yx g (classifyBlock ss yx g)
      | none => "bad-op")
   | _ => "bad-op"
 
